@@ -41,13 +41,15 @@ def run(tier):
         configs = [("cxx", {}, []), ("cxx-cfi", {"F_CFI": True}, [])]
         if thorough:
             configs += [("cxx-nodebug", {"debug": False}, []), ("cxx-cfi-nodebug", {"F_CFI": True, "debug": False}, [])]
-        configs = [(n, o, a, K.fortran_cases(), "derived") for n, o, a in configs]
+        # (F_CFI: without the 'char **' cases -- recorded finding C05 cfi-char-array: the module does not compile)
+        configs = [(n, o, a, [x for x in K.fortran_cases() if not (o.get("F_CFI") and any(p_["kind"] == "cstrv_in" for p_ in x["params"]))],
+                    "derived") for n, o, a in configs]
         # F_CFI is an option like any other: switched on for single functions (every second one) beside functions
         # that use the bufferify form; the Fortran API and its behaviour are the same
         mixed = []
         for k_, x_ in enumerate(K.fortran_cases()):
             x_ = dict(x_)
-            if k_ % 2 == 0:
+            if k_ % 2 == 0 and not any(p_["kind"] == "cstrv_in" for p_ in x_["params"]):
                 x_["yaml_extra"] = dict(x_.get("yaml_extra") or {}, options={"F_CFI": True})
             mixed.append(x_)
         configs.append(("cxx-mixed-cfi", {}, [], mixed, True))
